@@ -31,15 +31,27 @@ def load_variants(prop):
 def apply_edit(tree, v):
     overlay = {}
     edits = v.get("edits") or [(v["file"], v["old"], v["new"])]
-    for file, old, new in edits:
+    for e in edits:
+        file, old, new = e[0], e[1], e[2]
+        which = e[3] if len(e) > 3 else None     # optional: (expected number of occurrences, index of the one to replace)
         text = overlay.get(file, None)
         if text is None:
             text = tree.text(file)
         n = text.count(old)
-        if n != 1:
-            raise AnalysisError("variant %s: anchor text occurs %d times in %s (expected once)" % (v["name"], n, file),
-                                anchor="selftest/%s" % v["name"])
-        overlay[file] = text.replace(old, new)
+        if which is None:
+            if n != 1:
+                raise AnalysisError("variant %s: anchor text occurs %d times in %s (expected once)" % (v["name"], n, file),
+                                    anchor="selftest/%s" % v["name"])
+            overlay[file] = text.replace(old, new)
+        else:
+            want, idx = which
+            if n != want:
+                raise AnalysisError("variant %s: anchor text occurs %d times in %s (expected %d)" % (v["name"], n, file, want),
+                                    anchor="selftest/%s" % v["name"])
+            pos = -1
+            for _ in range(idx + 1):
+                pos = text.index(old, pos + 1)
+            overlay[file] = text[:pos] + new + text[pos + len(old):]
         if file.endswith(".py"):
             compile(overlay[file], file, "exec")  # the variant must still compile
     return overlay
